@@ -1,3 +1,5 @@
+#include <stdlib.h>
+#include <locale.h>
 /* platform regex oracle:  rx <icase 0|1> <patternhex> <subjecthex>  ->  "M so eo [so eo]..." | "N" | "E"
  * flags are those expr_set_pattern() passes: REG_EXTENDED | REG_NEWLINE (| REG_ICASE). */
 #include <regex.h>
@@ -5,6 +7,8 @@
 
 int main(void) {
 	char *line = NULL;
+	/* like mdsort itself: the character type of the environment (LC_ALL / LC_CTYPE) decides how regexec reads bytes */
+	if (getenv("VERIF_RX_LOCALE") != NULL) setlocale(LC_CTYPE, getenv("VERIF_RX_LOCALE"));
 	size_t cap = 0;
 	while (getline(&line, &cap, stdin) > 0) {
 		char *tok[8];
